@@ -2,3 +2,18 @@
 from vf.pyvc.registry import Registry
 
 REG = Registry()
+
+
+def none_unique(reg, twin=False):
+    """None is ONE value: every opaque value recognised as None equals the constant U!None (Python: there is a single None)."""
+    import z3
+    from vf.pyvc.values import TOpaque
+    from vf.pyvc.ops import opaque_pred
+    U = TOpaque().sort()
+    x = z3.Const("nu_x", U)
+    isn = opaque_pred("is_none")
+    none_u = z3.Const("U!None", U)
+    return z3.And(isn(none_u), z3.ForAll([x], z3.Implies(isn(x), x == none_u), patterns=[isn(x)]))
+
+
+REG.lemmas = [none_unique]
